@@ -126,6 +126,11 @@ pub(crate) struct Stack {
 }
 
 impl Stack {
+    #[cfg(boa_verif)]
+    pub(crate) fn verif_len(&self) -> usize {
+        self.stack.len()
+    }
+
     /// Creates a new stack with the given capacity.
     fn new(capacity: usize) -> Self {
         Self {
@@ -778,6 +783,9 @@ impl Context {
     where
         F: FnOnce(&mut Context, Opcode) -> ControlFlow<CompletionRecord>,
     {
+        #[cfg(boa_verif)]
+        crate::verif::observe_step(self);
+
         #[cfg(feature = "fuzz")]
         {
             use crate::error::EngineError;
